@@ -47,6 +47,7 @@ extern "C" {
 #define CO_TPDO_FLG_S_E     0x05   /*!< PDO synced + event occured           */
 #define CO_TPDO_FLG_SI_     0x06   /*!< PDO synced + TX inhibited            */
 #define CO_TPDO_FLG_SIE     0x07   /*!< PDO synved + event occured + TX inh. */
+#define CO_TPDO_FLG_SKIP    0x08   /*!< PDO event timer callback is obsolete */
 
 #define CO_RPDO_FLG__E      0x01                    /*!< enabled RPDO        */
 #define CO_RPDO_FLG_S_      0x02                    /*!< synchronized RPDO   */
